@@ -135,18 +135,20 @@ TS_T = sorted(set(TS + [i / 32.0 for i in range(33)] + [1e-9, 1 - 1e-9, 2.0 ** -
 LATTICE = [0j, 1 + 0j, 1j, 1 + 1j, 2 + 0.5j, -0.3 + 0.7j, 2.5e3 + 1e3j]
 
 
-def check_segment(name, rot, acc, scale=1.0, ts=TS, lattice=None):
+def check_segment(name, rot, acc, scale=1.0, ts=TS, lattice=None, shift=0j):
     if lattice is not None:
         pts = [LATTICE[i] for i in lattice]
         if all(q == pts[0] for q in pts):
             return
         seg = {2: Line, 3: QuadraticBezier, 4: CubicBezier}[len(pts)](*pts)
     else:
-        seg = AB.make(name, scale, rot=rot)
+        seg = AB.make(name, scale, rot=rot, shift=shift)
     kind = type(seg).__name__[0]
     size = seg_size(seg)
     for t in ts:
         case = {'what': 'segment', 'shape': name, 'rot': rot, 't': t, 'scale': scale}
+        if shift:
+            case['shift'] = core.jz(shift)
         if lattice is not None:
             case = {'what': 'lattice', 'idx': list(lattice), 't': t}
         if kind == 'L' and seg.start == seg.end:
@@ -154,9 +156,13 @@ def check_segment(name, rot, acc, scale=1.0, ts=TS, lattice=None):
         u = check_tangent_at(seg, t, case, acc, {'input': 'python'})
         # curvature
         if kind == 'A':
-            want = None
-            if seg.radius.real == seg.radius.imag:
-                want = 1.0 / seg.radius.real
+            # an ellipse at eccentric angle th (the arc's own stored parameterisation; C04 decides that one):
+            # kappa = rx ry / (rx^2 sin^2 th + ry^2 cos^2 th)^(3/2); 1/r on a circle
+            rx_, ry_ = seg.radius.real, seg.radius.imag
+            th_ = math.radians(seg.theta + t * seg.delta)
+            want = rx_ * ry_ / ((rx_ * math.sin(th_)) ** 2 + (ry_ * math.cos(th_)) ** 2) ** 1.5
+            if rx_ == ry_:
+                want = 1.0 / rx_
         elif kind == 'L':
             want = 0.0
         else:
@@ -432,7 +438,8 @@ def shards(tier, seed):
     rots = [0, 37] if tier == 'quick' else [0, 37, 90, 180, 211, 300]
     out = [{'what': 'segment', 'shape': n, 'rot': r} for n in list(AB.LINES) + list(AB.QUADS) + list(AB.CUBICS) + list(AB.ARCS) for r in rots]
     out += [{'what': 'segment', 'shape': n, 'rot': 0, 'scale': sc} for n in list(AB.QUADS) + list(AB.CUBICS) + list(AB.ARCS)
-            for sc in (1e-6, 1e8)]
+            for sc in (1e-6, 1e8, 1e-9, 1e-12)]
+    out += [{'what': 'segment', 'shape': n, 'rot': 0, 'scale': 1.0, 'shift': [1.0e6, 1.0e6]} for n in list(AB.QUADS) + list(AB.CUBICS) + list(AB.ARCS)]
     out += [{'what': 'coincident', 'shape': n} for n, _, _ in coincident_shapes()]
     out += [{'what': 'coincident_transformed', 'shape': n} for n, _, _ in coincident_shapes()]
     out += [{'what': 'transform', 'shape': n} for n in list(AB.LINES) + list(AB.QUADS) + list(AB.CUBICS) + list(AB.ARCS)]
@@ -456,7 +463,7 @@ def shards(tier, seed):
 def run_shard(desc, tier, seed):
     acc = core.Acc()
     if desc['what'] == 'segment':
-        check_segment(desc['shape'], desc['rot'], acc, scale=desc.get('scale', 1.0), ts=TS_T if desc.get('dense') else TS)
+        check_segment(desc['shape'], desc['rot'], acc, scale=desc.get('scale', 1.0), ts=TS_T if desc.get('dense') else TS, shift=complex(*desc.get('shift', [0, 0])))
     elif desc['what'] == 'lattice':
         i = 0
         for n in (2, 3, 4):
@@ -499,7 +506,7 @@ def replay(case):
     acc = core.ReplayAcc()
     w = case['what']
     if w == 'segment':
-        check_segment(case['shape'], case['rot'], acc, scale=case.get('scale', 1.0), ts=[case['t']])
+        check_segment(case['shape'], case['rot'], acc, scale=case.get('scale', 1.0), ts=[case['t']], shift=complex(*case.get('shift', [0, 0])))
         acc.vlist = [v for v in acc.vlist if v['case'].get('t') == case['t']]
     elif w == 'lattice':
         check_segment(None, 0, acc, ts=[case['t']], lattice=tuple(case['idx']))
